@@ -238,6 +238,32 @@ func extractBlockMgr() {
 		tipFirst = write >= 0 && lock > write && asg > lock && unlock > asg && firstNtf > unlock &&
 			strings.Contains(src(wf.Body), "b.filterHeaderTipHash = ")
 	}
+	// the mutex guarding the in-memory tip is RELEASED before the first notification: a backlog
+	// request (NotificationsSinceHeight takes the read lock) is never kept waiting by the loop that
+	// hands the events over
+	unlockFirst := false
+	if wf != nil {
+		var unlock, firstNtf token.Pos = -1, -1
+		nLocks, nUnlocks := 0, 0
+		for _, c := range calls(wf.Body) {
+			switch {
+			case c.name == "b.newFilterHeadersMtx.Lock":
+				nLocks++
+			case c.name == "b.newFilterHeadersMtx.Unlock":
+				nUnlocks++
+				if unlock < 0 {
+					unlock = c.pos
+				}
+			case c.name == "defer b.newFilterHeadersMtx.Unlock":
+				nUnlocks = -100 // released only when the function returns
+			case c.name == "b.onBlockConnected" && firstNtf < 0:
+				firstNtf = c.pos
+			}
+		}
+		unlockFirst = nLocks == 1 && nUnlocks == 1 && unlock >= 0 && firstNtf > unlock
+	}
+	l.def("cfUnlockBeforeNotify", "Bool", lbool(unlockFirst), "writeCFHeadersMsg releases newFilterHeadersMtx before the first onBlockConnected (one Lock, one Unlock, no defer)")
+
 	l.def("cfTipBeforeNotify", "Bool", lbool(tipFirst), "writeCFHeadersMsg raises filterHeaderTip(+Hash) under newFilterHeadersMtx after the store write and before the first onBlockConnected")
 
 	// rollBackToHeight lowers the in-memory filter tip under its mutex
